@@ -22,9 +22,21 @@ import "strings"
 // Each part starts with "-" followed by a single character flag.
 // Spaces after the flag character are ignored.
 // Content is read until the next space, unless escaped with "\".
+// Content may start with "-" when it follows the flag character directly
+// ("-L-dir"); after a space a "-" starts the next part.
 func SplitPkgConfigFlags(s string) []string {
 	var result []string
 	var current strings.Builder
+	// keep is the length of current up to and including the last escaped
+	// space: white space after it is a separator (or the trailing newline of
+	// pkg-config output) and is trimmed, white space before it is content.
+	keep := 0
+	flush := func() {
+		part := current.String()
+		result = append(result, part[:keep]+strings.TrimRight(part[keep:], " \t\r\n"))
+		current.Reset()
+		keep = 0
+	}
 	i := 0
 
 	// Skip leading whitespace
@@ -35,8 +47,7 @@ func SplitPkgConfigFlags(s string) []string {
 	for i < len(s) {
 		// Start a new part
 		if current.Len() > 0 {
-			result = append(result, strings.TrimSpace(current.String()))
-			current.Reset()
+			flush()
 		}
 		// Write "-" and the flag character
 		current.WriteByte('-')
@@ -46,12 +57,13 @@ func SplitPkgConfigFlags(s string) []string {
 			i++
 		}
 		// Skip spaces after flag character
+		start := i
 		for i < len(s) && (s[i] == ' ' || s[i] == '\t') {
 			i++
 		}
 
 		// Check if next character is another flag (short flag with no argument)
-		if i < len(s) && s[i] == '-' {
+		if i > start && i < len(s) && s[i] == '-' {
 			// This is a short flag with no argument, finish current flag
 			continue
 		}
@@ -62,6 +74,7 @@ func SplitPkgConfigFlags(s string) []string {
 				// Skip backslash and write the escaped space
 				i++
 				current.WriteByte(s[i])
+				keep = current.Len()
 				i++
 				continue
 			}
@@ -87,7 +100,7 @@ func SplitPkgConfigFlags(s string) []string {
 	}
 	// Add the last part
 	if current.Len() > 0 {
-		result = append(result, strings.TrimSpace(current.String()))
+		flush()
 	}
 	return result
 }
